@@ -11,7 +11,7 @@ def fd4(f, h):
     return (8.0 * (f(h) - f(-h)) - (f(2 * h) - f(-2 * h))) / (12.0 * h)
 
 
-def fd_check_vec(ctx, f, analytic, sig, h, rtol=1e-6, atol=0.0, **detail):
+def fd_check_vec(ctx, f, analytic, sig, h, rtol=1e-6, atol=0.0, xabs=None, **detail):
     """Compare `analytic` (array) with the derivative of f(step)->array at step 0.
 
     Two 4th-order estimates (h, h/2) must agree with each other, elementwise, else that
@@ -29,6 +29,12 @@ def fd_check_vec(ctx, f, analytic, sig, h, rtol=1e-6, atol=0.0, **detail):
     # round-off floor of the stencil: ~1.5*eps*|f|/h per estimate; 4e-14 gives a two-order margin
     f0 = np.abs(np.asarray(f(0.0 * h), dtype=float))
     tol = atol + rtol * scale + 4e-14 * f0 / np.abs(h)
+    if xabs is not None:
+        # the stepped argument x +- h is itself rounded (|error| <= eps |x| / 2 each side); with curvature f'' this
+        # shifts every stencil estimate by up to ~ f'' eps |x|.  Matters where f' = 0 and |x| >> h (x = y of a
+        # narrow kernel at large |x|).  f'' from the same samples.
+        fpp = np.abs(np.asarray(f(h), dtype=float) + np.asarray(f(-h), dtype=float) - 2 * np.asarray(f(0.0 * h), dtype=float)) / np.abs(h) ** 2
+        tol = tol + 9e-16 * np.abs(xabs) * fpp
     spread = np.abs(d1 - d2)
     unresolved = spread > tol
     nun = int(np.sum(unresolved))
